@@ -96,7 +96,8 @@ func (d *uripostDecoder) Scan(ctx context.Context) (DecodedAmmo, error) {
 // readBlock read one header at time and set to commonHeader or read full request
 func (d *uripostDecoder) readBlock(reader *bufio.Reader, commonHeader http.Header) (*ammo.Ammo, error) {
 	data, err := reader.ReadString('\n')
-	if err != nil {
+	if err != nil && (err != io.EOF || len(strings.TrimSpace(data)) == 0) {
+		// the last line may be unterminated: io.EOF with data is still an entry
 		return nil, err
 	}
 	data = strings.TrimSpace(data)
